@@ -3,6 +3,7 @@ mod env;
 mod obs;
 mod props;
 mod report;
+mod walkref;
 mod world;
 
 use report::Tier;
